@@ -14,6 +14,7 @@ package redis_test
 import (
 	"errors"
 	"fmt"
+	"reflect"
 	"strings"
 	"sync"
 	"sync/atomic"
@@ -48,16 +49,7 @@ func c19Server(tb failer) (*miniredis.Miniredis, *redis.Redis) {
 		if c19Err != nil {
 			return
 		}
-		c19MR.Server().SetPreHook(func(_ *server.Peer, cmd string, _ ...string) bool {
-			if cmd == "EVAL" || cmd == "EVALSHA" {
-				// VERIF_C19_STALL_AT=n (experiments only): the n-th script call is held back
-				// beyond go-redis' 3 s read timeout, which makes the client re-send it
-				if n := c19Evals.Add(1); n == c19StallAt {
-					time.Sleep(3300 * time.Millisecond)
-				}
-			}
-			return false
-		})
+		c19MR.Server().SetPreHook(c19Hook)
 		c19Store = redis.New(c19MR.Addr())
 		// load both scripts into the server once, so that from now on every
 		// Acquire/Release is exactly one EVALSHA (no NOSCRIPT + EVAL fallback)
@@ -71,6 +63,77 @@ func c19Server(tb failer) (*miniredis.Miniredis, *redis.Redis) {
 		tb.Skipf("inconclusive: cannot start miniredis: %v", c19Err)
 	}
 	return c19MR, c19Store
+}
+
+// c19Gate lets the test pause the k-th store command of the API call that is in flight
+// (command-granularity interleaving, see interleave).  Everything the oracle needs is
+// evaluated on the test goroutine; the hook only counts, signals and waits.
+type c19Gate struct {
+	mu     sync.Mutex
+	state  int // 0 idle, 1 armed, 2 paused (interloper running), 3 trailing (count only)
+	target int
+	seen   int
+	cmds   []string
+	paused chan struct{}
+	resume chan struct{}
+}
+
+var c19G c19Gate
+
+// connection set-up traffic of go-redis is not part of an API call
+func c19ConnCmd(cmd string) bool {
+	switch cmd {
+	case "HELLO", "CLIENT", "PING", "AUTH", "SELECT", "QUIT", "COMMAND", "ECHO":
+		return true
+	}
+	return false
+}
+
+// redis.call inside a Lua script is dispatched through the same server entry point (and
+// pre-hook) with miniredis' lock held; such nested commands are not store commands of
+// the client and must never be paused.
+func c19Nested(p *server.Peer) bool {
+	if p == nil || p.Ctx == nil {
+		return false
+	}
+	v := reflect.ValueOf(p.Ctx)
+	if v.Kind() != reflect.Ptr || v.IsNil() || v.Elem().Kind() != reflect.Struct {
+		return false
+	}
+	f := v.Elem().FieldByName("nested")
+	return f.IsValid() && f.Kind() == reflect.Bool && f.Bool()
+}
+
+func c19Hook(peer *server.Peer, cmd string, _ ...string) bool {
+	if c19Nested(peer) {
+		return false
+	}
+	if cmd == "EVAL" || cmd == "EVALSHA" {
+		// VERIF_C19_STALL_AT=n (experiments only): the n-th script call is held back
+		// beyond go-redis' 3 s read timeout, which makes the client re-send it
+		if n := c19Evals.Add(1); n == c19StallAt {
+			time.Sleep(3300 * time.Millisecond)
+		}
+	}
+	g := &c19G
+	g.mu.Lock()
+	if (g.state == 1 || g.state == 3) && !c19ConnCmd(cmd) {
+		g.seen++
+		g.cmds = append(g.cmds, cmd)
+		if g.state == 1 && g.seen == g.target {
+			g.state = 2
+			paused, resume := g.paused, g.resume
+			g.mu.Unlock()
+			close(paused)
+			select {
+			case <-resume:
+			case <-time.After(10 * time.Second): // never hang the server goroutine
+			}
+			return false
+		}
+	}
+	g.mu.Unlock()
+	return false
 }
 
 // failer is what the model needs from *rapid.T / *testing.T.
@@ -128,6 +191,7 @@ type c19World struct {
 	inst  []*c19Inst
 	log   strings.Builder
 	dead  bool  // case abandoned as inconclusive
+	mute  bool  // trying out an order of an interleaved pair: no histogram entries
 	evals int64 // server-side script executions accounted for so far
 	late  int   // "A expired, B acquired, A released while B holds" events
 	concF int   // concurrent acquire rounds on a free key
@@ -218,10 +282,17 @@ func (w *c19World) infra(op string, err error) {
 func (w *c19World) scriptRuns(op string, calls int, took time.Duration) {
 	n := c19Evals.Load() - w.evals
 	w.evals += n
-	if n != int64(calls) {
+	if n > int64(calls) {
 		w.st.Class("inconclusive:transport-retry")
 		w.abort("%s: %d API call(s) but the server received %d script executions (client re-sent a command; the call took %v of wall time)",
 			op, calls, n, took.Round(time.Millisecond))
+	}
+	// an implementation that does not use scripts cannot be counted that way; a re-send
+	// happens only after go-redis' 3 s read timeout, so a call that took that long is
+	// inconclusive as well (wall-clock budget overrun, never a verdict)
+	if took >= 2500*time.Millisecond {
+		w.st.Class("inconclusive:slow-call")
+		w.abort("%s took %v of wall time: a client re-send cannot be excluded", op, took.Round(time.Millisecond))
 	}
 }
 
@@ -275,8 +346,14 @@ func tf(b bool) string {
 // with the model: present exactly while somebody holds an unexpired lease, and the
 // remaining TTL is the remaining lease.
 func (w *c19World) checkState() {
+	if msg := w.storeMismatch(); msg != "" {
+		w.fail("%s", msg)
+	}
+}
+
+func (w *c19World) storeMismatch() string {
 	if c19APIOnly {
-		return
+		return ""
 	}
 	for _, k := range w.keys {
 		state, h := w.view(k)
@@ -284,59 +361,77 @@ func (w *c19World) checkState() {
 		switch state {
 		case c19Free:
 			if exists {
-				w.fail("key %s is still set (ttl %v) although nobody holds it", k.name, ttl)
+				return fmt.Sprintf("key %s is still set (ttl %v) although nobody holds it", k.name, ttl)
 			}
 		case c19Held:
 			if k.expiry == w.now {
 				continue // the instant the lease ends: either side is acceptable
 			}
 			if !exists {
-				w.fail("key %s is gone although %s holds it for another %d ms (lease = seconds*1000+500)",
+				return fmt.Sprintf("key %s is gone although %s holds it for another %d ms (lease = seconds*1000+500)",
 					k.name, w.inst[h].name, k.expiry-w.now)
 			}
 			if rem := k.expiry - w.now; rem > 0 && ttl != time.Duration(rem)*time.Millisecond {
-				w.fail("key %s held by %s: remaining ttl %v, lease says %d ms (lease = seconds*1000+500)",
+				return fmt.Sprintf("key %s held by %s: remaining ttl %v, lease says %d ms (lease = seconds*1000+500)",
 					k.name, w.inst[h].name, ttl, rem)
 			}
 		}
+	}
+	return ""
+}
+
+func (w *c19World) class(name string) {
+	if !w.mute {
+		w.st.Class(name)
 	}
 }
 
 func (w *c19World) acquire(i int) bool {
 	in := w.inst[i]
-	k := w.keys[in.key]
-	state, h := w.view(k)
 	t0 := w.quiet("Acquire")
 	got, err := in.lock.Acquire()
 	fmt.Fprintf(&w.log, " acq(%s)=%s", in.name, tf(got))
 	w.infra("Acquire", err)
 	w.scriptRuns("Acquire", 1, time.Since(t0))
+	if msg := w.applyAcquire(i, got); msg != "" {
+		w.fail("%s", msg)
+	}
+	w.checkState()
+	return got
+}
+
+// applyAcquire: the model's verdict on "Acquire by i returned got" in the current model
+// state ("" = consistent with the statement), and the model's next state.
+func (w *c19World) applyAcquire(i int, got bool) string {
+	in := w.inst[i]
+	k := w.keys[in.key]
+	state, h := w.view(k)
 	switch state {
 	case c19Free:
-		w.st.Class("acquire:free")
+		w.class("acquire:free")
 		if !got {
-			w.fail("Acquire by %s failed although no instance holds %s unexpired", in.name, k.name)
+			return fmt.Sprintf("Acquire by %s failed although no instance holds %s unexpired", in.name, k.name)
 		}
 		w.grant(k, i)
 	case c19Held:
 		if h == i {
-			w.st.Class("acquire:refresh")
+			w.class("acquire:refresh")
 			if !got {
-				w.fail("re-Acquire by the holder %s failed (must refresh its lease)", in.name)
+				return fmt.Sprintf("re-Acquire by the holder %s failed (must refresh its lease)", in.name)
 			}
 			w.grant(k, i)
 		} else {
-			w.st.Class("acquire:held-by-other")
+			w.class("acquire:held-by-other")
 			if got {
-				w.fail("Acquire by %s succeeded while %s holds the key with %d ms of lease left",
+				return fmt.Sprintf("Acquire by %s succeeded while %s holds the key with %d ms of lease left",
 					in.name, w.inst[h].name, k.expiry-w.now)
 			}
 		}
 	case c19Tie:
-		w.st.Class("acquire:at-expiry-instant")
+		w.class("acquire:at-expiry-instant")
 		if h == i {
 			if !got {
-				w.fail("Acquire by %s failed at the instant its own lease ends (holder or free: must succeed)", in.name)
+				return fmt.Sprintf("Acquire by %s failed at the instant its own lease ends (holder or free: must succeed)", in.name)
 			}
 			w.grant(k, i)
 		} else if got {
@@ -346,46 +441,54 @@ func (w *c19World) acquire(i int) bool {
 			k.tieHeld = true
 		}
 	}
-	w.checkState()
-	return got
+	return ""
 }
 
 func (w *c19World) release(i int) bool {
 	in := w.inst[i]
-	k := w.keys[in.key]
-	state, h := w.view(k)
 	t0 := w.quiet("Release")
 	got, err := in.lock.Release()
 	fmt.Fprintf(&w.log, " rel(%s)=%s", in.name, tf(got))
 	w.infra("Release", err)
 	w.scriptRuns("Release", 1, time.Since(t0))
+	if msg := w.applyRelease(i, got); msg != "" {
+		w.fail("%s", msg)
+	}
+	w.checkState() // in particular: a refused release left the holder's key and ttl untouched
+	return got
+}
+
+func (w *c19World) applyRelease(i int, got bool) string {
+	in := w.inst[i]
+	k := w.keys[in.key]
+	state, h := w.view(k)
 	switch state {
 	case c19Free:
-		w.st.Class("release:free-key")
+		w.class("release:free-key")
 		if got {
-			w.fail("Release by %s reported true although it does not hold the key (nobody does)", in.name)
+			return fmt.Sprintf("Release by %s reported true although it does not hold the key (nobody does)", in.name)
 		}
 	case c19Held:
 		if h == i {
-			w.st.Class("release:holder")
+			w.class("release:holder")
 			if !got {
-				w.fail("Release by the current holder %s reported false", in.name)
+				return fmt.Sprintf("Release by the current holder %s reported false", in.name)
 			}
 			k.holder, k.tieHeld = -1, false
 		} else {
 			if in.superseded {
 				w.late++
-				w.st.Class("release:late-after-takeover")
+				w.class("release:late-after-takeover")
 			} else {
-				w.st.Class("release:non-holder")
+				w.class("release:non-holder")
 			}
 			if got {
-				w.fail("Release by %s reported true while %s is the current holder (%d ms left)",
+				return fmt.Sprintf("Release by %s reported true while %s is the current holder (%d ms left)",
 					in.name, w.inst[h].name, k.expiry-w.now)
 			}
 		}
 	case c19Tie:
-		w.st.Class("release:at-expiry-instant")
+		w.class("release:at-expiry-instant")
 		if h == i {
 			// true: still holder, freed; false: already expired.  Free either way.
 			if !got {
@@ -393,11 +496,10 @@ func (w *c19World) release(i int) bool {
 			}
 			k.holder, k.tieHeld = -1, false
 		} else if got {
-			w.fail("Release by %s reported true; the key was last held by %s", in.name, w.inst[h].name)
+			return fmt.Sprintf("Release by %s reported true; the key was last held by %s", in.name, w.inst[h].name)
 		}
 	}
-	w.checkState() // in particular: a refused release left the holder's key and ttl untouched
-	return got
+	return ""
 }
 
 func (w *c19World) setExpire(i, s int) {
@@ -411,32 +513,219 @@ func (w *c19World) forward(ms int64) {
 	if ms < 1 {
 		ms = 1
 	}
+	w.mr.FastForward(time.Duration(ms) * time.Millisecond)
+	fmt.Fprintf(&w.log, " fwd(%d)", ms)
+	w.applyForward(ms)
+	w.checkState()
+}
+
+func (w *c19World) applyForward(ms int64) {
 	for _, k := range w.keys {
 		if st, _ := w.view(k); st != c19Free {
 			switch rem := k.expiry - w.now; {
 			case ms < rem:
-				w.st.Class("forward:before-expiry")
+				w.class("forward:before-expiry")
 				if ms == rem-1 {
-					w.st.Class("forward:to-1ms-before-expiry")
+					w.class("forward:to-1ms-before-expiry")
 				}
 			case ms == rem:
-				w.st.Class("forward:to-expiry-instant")
+				w.class("forward:to-expiry-instant")
 			default:
-				w.st.Class("forward:past-expiry")
+				w.class("forward:past-expiry")
 				if ms == rem+1 {
-					w.st.Class("forward:to-1ms-past-expiry")
+					w.class("forward:to-1ms-past-expiry")
 				}
 			}
 		}
 	}
-	w.mr.FastForward(time.Duration(ms) * time.Millisecond)
 	w.now += ms
-	fmt.Fprintf(&w.log, " fwd(%d)", ms)
 	for _, k := range w.keys {
 		k.tieHeld = false
 		w.view(k)
 	}
-	w.checkState()
+}
+
+// ------------------------------------------------------------------ command-granularity interleaving
+
+// c19Step is one primitive step, executed without touching the model (raw) and judged
+// afterwards (apply).
+type c19Step struct {
+	kind byte // 'a' Acquire, 'r' Release, 'e' SetExpire, 'f' forward
+	inst int
+	arg  int64 // seconds or milliseconds
+	got  bool
+	err  error
+}
+
+func (w *c19World) raw(s *c19Step) {
+	switch s.kind {
+	case 'a':
+		s.got, s.err = w.inst[s.inst].lock.Acquire()
+	case 'r':
+		s.got, s.err = w.inst[s.inst].lock.Release()
+	case 'e':
+		w.inst[s.inst].lock.SetExpire(int(s.arg))
+	case 'f':
+		w.mr.FastForward(time.Duration(s.arg) * time.Millisecond)
+	}
+}
+
+func (w *c19World) apply(s *c19Step) string {
+	switch s.kind {
+	case 'a':
+		return w.applyAcquire(s.inst, s.got)
+	case 'r':
+		return w.applyRelease(s.inst, s.got)
+	case 'e':
+		w.inst[s.inst].sec = int(s.arg)
+	case 'f':
+		w.applyForward(s.arg)
+	}
+	return ""
+}
+
+func (w *c19World) render(s *c19Step) string {
+	switch s.kind {
+	case 'a':
+		return fmt.Sprintf("acq(%s)=%s", w.inst[s.inst].name, tf(s.got))
+	case 'r':
+		return fmt.Sprintf("rel(%s)=%s", w.inst[s.inst].name, tf(s.got))
+	case 'e':
+		return fmt.Sprintf("exp(%s,%d)", w.inst[s.inst].name, s.arg)
+	default:
+		return fmt.Sprintf("fwd(%d)", s.arg)
+	}
+}
+
+type c19Snap struct {
+	now         int64
+	keys        []c19Key
+	inst        []c19Inst
+	late, concF int
+}
+
+func (w *c19World) snapshot() c19Snap {
+	sn := c19Snap{now: w.now, late: w.late, concF: w.concF}
+	for _, k := range w.keys {
+		sn.keys = append(sn.keys, *k)
+	}
+	for _, in := range w.inst {
+		sn.inst = append(sn.inst, *in)
+	}
+	return sn
+}
+
+func (w *c19World) restore(sn c19Snap) {
+	w.now, w.late, w.concF = sn.now, sn.late, sn.concF
+	for i := range sn.keys {
+		*w.keys[i] = sn.keys[i]
+	}
+	for i := range sn.inst {
+		*w.inst[i] = sn.inst[i]
+	}
+}
+
+// interleave runs the API call x and, while the k-th store command that x issues is
+// held back at the server (pre-hook), the interloper steps y of other instances /
+// the clock.  If x issues fewer than k commands (the real scripts are one command), y
+// runs right after x.  Oracle: the results of all steps and the final store state must
+// be those of SOME sequential order, y-then-x or x-then-y, under the (holder, expiry)
+// model; the model continues from that order's state.
+func (w *c19World) interleave(x *c19Step, k int, y []*c19Step) {
+	snap := w.snapshot()
+	t0 := w.quiet("interleaved call")
+	g := &c19G
+	g.mu.Lock()
+	g.state, g.target, g.seen, g.cmds = 1, k, 0, nil
+	g.paused, g.resume = make(chan struct{}), make(chan struct{})
+	paused, resume := g.paused, g.resume
+	g.mu.Unlock()
+	done := make(chan struct{})
+	go func() {
+		defer close(done)
+		w.raw(x)
+	}()
+	interrupted := false
+	select {
+	case <-paused:
+		interrupted = true
+		for _, s := range y {
+			w.raw(s)
+		}
+		g.mu.Lock()
+		g.state = 3
+		g.mu.Unlock()
+		close(resume)
+		<-done
+	case <-done:
+	}
+	g.mu.Lock()
+	g.state = 0
+	ncmd, cmds := g.seen, strings.Join(g.cmds, "+")
+	g.mu.Unlock()
+	if !interrupted {
+		for _, s := range y {
+			w.raw(s)
+		}
+	}
+	took := time.Since(t0)
+	var ys []string
+	calls := 1
+	for _, s := range y {
+		ys = append(ys, w.render(s))
+		if s.kind == 'a' || s.kind == 'r' {
+			calls++
+		}
+	}
+	at := "after"
+	if interrupted {
+		at = fmt.Sprintf("before cmd %d of %d", k, ncmd)
+	}
+	fmt.Fprintf(&w.log, " il{%s [%s] | %s: %s}", w.render(x), cmds, at, strings.Join(ys, " "))
+	w.infra("interleaved call", x.err)
+	for _, s := range y {
+		w.infra("interloper", s.err)
+	}
+	w.scriptRuns("interleaved call", calls, took)
+	switch {
+	case !interrupted:
+		w.class("interleave:not-interrupted(call-issued-fewer-commands)")
+	case k == 1:
+		w.class("interleave:interrupted-at-command-1")
+	default:
+		w.class("interleave:interrupted-at-command-2+")
+	}
+	w.class(fmt.Sprintf("interleave:call-issued-%d-command(s)", ncmd))
+
+	// the order that really happened when x is atomic comes first
+	orders := [][]*c19Step{append(append([]*c19Step{}, y...), x), append([]*c19Step{x}, y...)}
+	names := []string{"interloper-first", "call-first"}
+	if !interrupted {
+		orders[0], orders[1] = orders[1], orders[0]
+		names[0], names[1] = names[1], names[0]
+	}
+	var why []string
+	for o, order := range orders {
+		w.restore(snap)
+		w.mute = true
+		msg := ""
+		for _, s := range order {
+			if msg = w.apply(s); msg != "" {
+				break
+			}
+		}
+		if msg == "" {
+			msg = w.storeMismatch()
+		}
+		w.mute = false
+		if msg == "" {
+			w.class("interleave:explained-as-" + names[o])
+			return
+		}
+		why = append(why, names[o]+": "+msg)
+	}
+	w.restore(snap)
+	w.fail("interleaved call: results and final store state match neither sequential order (%s)", strings.Join(why, "; "))
 }
 
 // concurrent runs Acquire on the given distinct instances of one key at once.
@@ -602,6 +891,52 @@ func TestVerifC19Machine(t *testing.T) {
 					}
 				}
 				w.concurrent(set)
+			},
+			// one API call with other instances' steps / the clock landing between its store commands
+			"interleaved": func(t *rapid.T) {
+				k := w.keys[0]
+				i := onA.Draw(t, "inst")
+				if s, h := w.view(k); s != c19Free && rapid.Bool().Draw(t, "byHolder") {
+					i = h
+				}
+				j := (i + rapid.IntRange(1, n0-1).Draw(t, "other")) % n0
+				x := &c19Step{kind: rapid.SampledFrom([]byte{'a', 'r', 'r'}).Draw(t, "call"), inst: i}
+				if x.kind == 'r' && rapid.Bool().Draw(t, "holdFirst") {
+					if s, h := w.view(k); s == c19Free || h != i {
+						if s != c19Free {
+							w.forward(k.expiry - w.now + 1)
+						}
+						w.acquire(i)
+					}
+				}
+				rem := int64(500)
+				if s, _ := w.view(k); s != c19Free {
+					rem = k.expiry - w.now
+				}
+				fwd := func(ms int64) *c19Step {
+					if ms < 1 {
+						ms = 1
+					}
+					return &c19Step{kind: 'f', arg: ms}
+				}
+				var y []*c19Step
+				shape := rapid.IntRange(0, 5).Draw(t, "interloper")
+				switch shape {
+				case 0: // lease runs out and somebody else takes the key
+					y = []*c19Step{fwd(rem + rapid.SampledFrom([]int64{1, 2, 500}).Draw(t, "past")), {kind: 'a', inst: j}}
+				case 1:
+					y = []*c19Step{{kind: 'a', inst: j}}
+				case 2:
+					y = []*c19Step{{kind: 'r', inst: j}}
+				case 3:
+					y = []*c19Step{fwd(rem + rapid.Int64Range(-2, 1).Draw(t, "delta"))}
+				case 4:
+					y = []*c19Step{{kind: 'e', inst: j, arg: int64(c19SecGen.Draw(t, "seconds"))}, {kind: 'a', inst: j}}
+				default: // taken over and given back
+					y = []*c19Step{fwd(rem + 1), {kind: 'a', inst: j}, {kind: 'r', inst: j}}
+				}
+				w.class(fmt.Sprintf("interleave:interloper-shape-%d", shape))
+				w.interleave(x, rapid.IntRange(1, 3).Draw(t, "pauseAtCommand"), y)
 			},
 			// forced shape: A's lease expires, B acquires, A releases late; B must still hold
 			"shapeLateRelease": func(t *rapid.T) {
@@ -789,5 +1124,46 @@ func TestVerifC19ScriptedLateRelease(t *testing.T) {
 			t.Fatalf("scripted history: late release not recognised; %s", w.log.String())
 		}
 		st.NonTrivial(w.log.String())
+	}
+}
+
+// The window named by seeded change C19b as a plain test: while the holder's Release is
+// between its store commands (if it has more than one) the lease runs out and another
+// instance takes the key; likewise for Acquire with a competing Acquire in the window.
+func TestVerifC19ScriptedInterleaved(t *testing.T) {
+	logx.Disable()
+	st := verifkit.New("scripted")
+	defer st.Flush()
+	for k := 1; k <= 3; k++ {
+		for _, call := range []byte{'r', 'a', 'h'} {
+			st.Eval()
+			w := c19NewWorld(t, st, []int{3}, []int{2, 30, 30})
+			const a, b = 0, 1
+			w.guard(func() {
+				if call == 'r' {
+					w.acquire(a)
+					w.interleave(&c19Step{kind: 'r', inst: a}, k,
+						[]*c19Step{{kind: 'f', arg: c19Lease(2) + 1}, {kind: 'a', inst: b}})
+					w.release(a) // late (or repeated) release: false
+					w.acquire(2) // false: b holds
+					w.release(b) // true
+				} else if call == 'h' { // the holder's refreshing Acquire, lease running out in the window
+					w.acquire(a)
+					w.interleave(&c19Step{kind: 'a', inst: a}, k,
+						[]*c19Step{{kind: 'f', arg: c19Lease(2) + 1}, {kind: 'a', inst: b}})
+					w.acquire(2) // false: one of a, b holds
+					w.forward(c19Lease(30) + 1)
+					w.acquire(2) // true
+				} else {
+					w.interleave(&c19Step{kind: 'a', inst: a}, k, []*c19Step{{kind: 'a', inst: b}})
+					w.acquire(2) // false: exactly one of a, b holds
+					w.forward(c19Lease(30) + 1)
+					w.acquire(2) // true
+				}
+			})
+			if !w.dead {
+				st.NonTrivial(w.log.String())
+			}
+		}
 	}
 }
